@@ -47,6 +47,35 @@ func c02Assigns(f *ast.File, fn string) []string {
 	return r
 }
 
+// c02FirstCompositeFields: "key=value" of the first keyed composite literal in fn (whatever its type)
+func c02FirstCompositeFields(f *ast.File, fn string) []string {
+	fd := funcDecl(f, fn)
+	if fd == nil {
+		return []string{"MISSING:" + fn}
+	}
+	var res []string
+	found := false
+	ast.Inspect(fd, func(n ast.Node) bool {
+		cl, ok := n.(*ast.CompositeLit)
+		if !ok || found {
+			return !found
+		}
+		found = true
+		for _, e := range cl.Elts {
+			if kv, ok := e.(*ast.KeyValueExpr); ok {
+				res = append(res, exprString(kv.Key)+"="+exprFull(kv.Value))
+			} else {
+				res = append(res, "?="+exprFull(e))
+			}
+		}
+		return false
+	})
+	if !found {
+		return []string{"MISSING:literal"}
+	}
+	return res
+}
+
 func c02DpopFacts(l *lean, consts c02Consts, ttlOf func(*ast.File, string) ast.Expr) {
 	_, iamDpop := parseFile("auth/api/iam/dpop.go")
 	_, libDpop := parseFile("crypto/dpop/dpop.go")
@@ -70,4 +99,12 @@ func c02DpopFacts(l *lean, consts c02Consts, ttlOf func(*ast.File, string) ast.E
 	l.def("s2sNonceStoreKeys", "List String", leanStrList(k2), k2)
 	k3 := c02StoreKeyArgs(o4vp, "handleAccessTokenRequest", ".GetAndDelete", ".Get", ".Put", ".Delete")
 	l.def("codeStoreKeys", "List String", leanStrList(k3), k3)
+	// the stores a request obtains through GetStore share the DATABASE's one mutex (PutIfAbsent / GetAndDelete are Get + Put / Delete
+	// under that mutex; every request calls GetStore anew)
+	_, inmem := parseFile("storage/session_inmemory.go")
+	_, rds := parseFile("storage/session_redis.go")
+	g1 := c02FirstCompositeFields(inmem, "GetStore")
+	l.def("getStoreInitInMemory", "List String", leanStrList(g1), g1)
+	g2 := c02FirstCompositeFields(rds, "GetStore")
+	l.def("getStoreInitRedis", "List String", leanStrList(g2), g2)
 }
